@@ -154,7 +154,7 @@ fn identity_family(ctx: &Ctx, q: &SE, rng: &mut rand_chacha::ChaCha20Rng) -> Vec
 pub fn run(ctx: &Ctx, rec: &mut Rec) {
     let c = &ctx.c;
     let mut zrng = rng_for(ctx.seed, P, 999, 0);
-    let zoo = shadow_zoo(ctx, &mut zrng, ctx.scale(60, 300));
+    let zoo = shadow_zoo(ctx, &mut zrng, ctx.scale(200, 600));
     for cl in ["equal-pair", "unequal-pair", "identity-family", "non-identity", "program-register"] {
         rec.declare_class(cl);
     }
@@ -202,7 +202,7 @@ pub fn run(ctx: &Ctx, rec: &mut Rec) {
             }
         }
         // program registers: pairs inside the register file
-        let nprog = ctx.scale(2000, 20000);
+        let nprog = ctx.scale(8000, 60000);
         for pi in 0..nprog {
             if pi % n != w {
                 continue;
